@@ -409,7 +409,11 @@ let answer w toks : ostring =
   | ["reopen"] ->
     ignore (run_op w OReopen);
     for j = 0 to w.n - 1 do
-      let s = w.tbl.(j) in if s.bound && not (is_alive_oid w s.oid) then s.bound <- false
+      let s = w.tbl.(j) in
+      (* the implementation driver finds its entities again by id: dead or re-identified ones become none handles *)
+      let gone = not (is_alive_oid w s.oid) ||
+                 (match find_ent w.st (nat_of_int s.oid) with Some e -> int_of_nat (e_idx e) <> s.oid | None -> true) in
+      if s.bound && gone then s.bound <- false
     done;
     let before = w.last_dump in
     w.last_dump <- dump w;
